@@ -36,6 +36,36 @@ class SBool:
         self.f = f
 
 
+class SInt:
+    """symbolic Python int (never None): z3 Int term. Default object equality/hash on purpose (so that real Python
+    containers holding SInts keep working); symbolic comparisons go through Interp.compare."""
+    def __init__(self, t):
+        self.t = t if not isinstance(t, int) else z3.IntVal(t)
+
+    def __repr__(self):
+        return "SInt(%s)" % self.t
+
+
+def _it(x):
+    if isinstance(x, SInt):
+        return x.t
+    if isinstance(x, bool) or not isinstance(x, int):
+        raise NotEncodable("integer arithmetic with %r" % (type(x),))
+    return z3.IntVal(x)
+
+
+def slice_indices_model(s, n):
+    """Python's slice.indices(n) for step > 0 over symbolic ints (clamping), as z3 If-terms"""
+    n = _it(n)
+    step = z3.IntVal(1) if s.step is None else _it(s.step)
+    def clamp(v, default):
+        if v is None:
+            return default
+        v = _it(v)
+        return z3.If(v < 0, z3.If(v + n < 0, z3.IntVal(0), v + n), z3.If(v > n, n, v))
+    return SInt(clamp(s.start, z3.IntVal(0))), SInt(clamp(s.stop, n)), SInt(step)
+
+
 class Inst:
     """an instance of a real class created by interpreted code; attributes live on the symbolic heap"""
     def __init__(self, cls):
@@ -90,6 +120,7 @@ class Interp:
         self.timeout = timeout_ms
         self.functions = set()
         self.stubs = {}  # real callable -> python callable(interp, args, kwargs)
+        self.symbolic_ok = ()  # harness stub classes whose methods accept symbolic arguments
         self._src = {}
 
     # ------------------------------------------------------------ path control
@@ -179,7 +210,7 @@ class Interp:
             return self._class_lookup(obj.cls, name, obj)
         if isinstance(obj, type):
             return self._class_lookup(obj, name, None)
-        if isinstance(obj, (SVal, SBool)):
+        if isinstance(obj, (SVal, SBool, SInt)):
             raise NotEncodable("attribute %s of a symbolic value" % name)
         return getattr(obj, name)
 
@@ -241,11 +272,29 @@ class Interp:
             return self.stubs[f](self, args, kwargs)
         if isinstance(f, BoundMethod):
             return self.call_function(f.fn, (f.self_obj,) + tuple(args), kwargs, f.defcls)
+        if f is isinstance and len(args) == 2 and isinstance(args[0], (SInt, SVal, SBool)):
+            if isinstance(args[0], SInt):
+                ks = args[1] if isinstance(args[1], tuple) else (args[1],)
+                return any(k is int or k is object for k in ks)
+            raise NotEncodable("isinstance of a symbolic optional")
+        if isinstance(f, types.BuiltinMethodType) and isinstance(getattr(f, "__self__", None), slice) and f.__name__ == "indices":
+            sl = f.__self__
+            if any(isinstance(x, SInt) for x in (sl.start, sl.stop, sl.step, args[0])):
+                if sl.step is not None:
+                    if not self.truth(SBool(_it(sl.step) > 0)):
+                        raise NotEncodable("slice.indices with non-positive step")
+                return slice_indices_model(sl, args[0])
+        if getattr(f, "__self__", None) is not None and isinstance(f.__self__, self.symbolic_ok):
+            return f(*args, **kwargs)
+        if isinstance(f, type) and issubclass(f, self.symbolic_ok):
+            return f(*args, **kwargs)
         if isinstance(f, type):
             if f is super:
                 raise NotEncodable("explicit super(...) arguments")
             if f.__module__ in ("builtins",) or issubclass(f, BaseException):
-                if any(isinstance(a, (SVal, SBool)) for a in list(args) + list(kwargs.values())):
+                if f is slice:
+                    return slice(*args)
+                if any(isinstance(a, (SVal, SBool, SInt)) for a in list(args) + list(kwargs.values())):
                     if issubclass(f, BaseException):
                         return f("<symbolic message>")
                     raise NotEncodable("builtin %s on symbolic value" % f.__name__)
@@ -259,7 +308,9 @@ class Interp:
             mod = getattr(f, "__module__", "") or ""
             if mod.startswith("gpytorch") or mod.startswith("linear_operator"):
                 return self.call_function(f, tuple(args), kwargs, None)
-        if any(isinstance(a, (SVal, SBool, Inst)) for a in list(args) + list(kwargs.values())):
+        if f is slice:
+            return slice(*args)
+        if any(isinstance(a, (SVal, SBool, Inst, SInt)) for a in list(args) + list(kwargs.values())):
             raise NotEncodable("external call %r with symbolic argument" % (f,))
         return f(*args, **kwargs)
 
@@ -320,7 +371,7 @@ class Interp:
         elif isinstance(target, ast.Attribute):
             self.setattr(self.eval(target.value, fr), target.attr, v)
         elif isinstance(target, (ast.Tuple, ast.List)):
-            if isinstance(v, (SVal, SBool)):
+            if isinstance(v, (SVal, SBool, SInt)):
                 raise NotEncodable("unpacking a symbolic value")
             vs = list(v)
             if len(vs) != len(target.elts):
@@ -340,6 +391,8 @@ class Interp:
             return self.branch(z3.And(z3.Not(v.none), v.val != 0))
         if isinstance(v, Inst):
             return True
+        if isinstance(v, SInt):
+            return self.branch(v.t != 0)
         return bool(v)
 
     def eval(self, e, fr):
@@ -408,6 +461,8 @@ class Interp:
             return not v
         if isinstance(e, ast.UnaryOp) and isinstance(e.op, ast.USub):
             v = self.eval(e.operand, fr)
+            if isinstance(v, SInt):
+                return SInt(-v.t)
             if isinstance(v, (SVal, SBool)):
                 raise NotEncodable("arithmetic on symbolic value")
             return -v
@@ -427,12 +482,29 @@ class Interp:
             l, r = self.eval(e.left, fr), self.eval(e.right, fr)
             if isinstance(l, (SVal, SBool)) or isinstance(r, (SVal, SBool)):
                 raise NotEncodable("arithmetic on symbolic value")
+            if isinstance(l, SInt) or isinstance(r, SInt):
+                a, b = _it(l), _it(r)
+                if isinstance(e.op, ast.Add):
+                    return SInt(a + b)
+                if isinstance(e.op, ast.Sub):
+                    return SInt(a - b)
+                if isinstance(e.op, ast.Mult):
+                    return SInt(a * b)
+                if isinstance(e.op, ast.FloorDiv) and isinstance(r, int) and r > 0:
+                    return SInt(a / b)  # z3 int division = floor for positive divisor
+                if isinstance(e.op, ast.Mod) and isinstance(r, int) and r > 0:
+                    return SInt(a % b)
+                raise NotEncodable("integer operator %s on symbolic ints" % type(e.op).__name__)
             import operator
             ops = {ast.Add: operator.add, ast.Sub: operator.sub, ast.Mult: operator.mul, ast.Div: operator.truediv,
                    ast.Mod: operator.mod, ast.FloorDiv: operator.floordiv}
             if type(e.op) not in ops:
                 raise NotEncodable("binop")
             return ops[type(e.op)](l, r)
+        if isinstance(e, ast.Slice):
+            return slice(self.eval(e.lower, fr) if e.lower is not None else None,
+                         self.eval(e.upper, fr) if e.upper is not None else None,
+                         self.eval(e.step, fr) if e.step is not None else None)
         if isinstance(e, ast.Subscript):
             base = self.eval(e.value, fr)
             idx = self.eval(e.slice, fr)
@@ -447,6 +519,22 @@ class Interp:
         return SBool(z3.And(fa, fb))
 
     def compare(self, op, l, r):
+        if isinstance(l, SInt) or isinstance(r, SInt):
+            if isinstance(op, (ast.Is, ast.IsNot)):
+                return (l is r) if isinstance(op, ast.Is) else (l is not r)
+            if isinstance(op, (ast.In, ast.NotIn)):
+                raise NotEncodable("membership test with symbolic int")
+            other = r if isinstance(l, SInt) else l
+            if not isinstance(other, (SInt, int)) or isinstance(other, bool):
+                if isinstance(op, ast.Eq):
+                    return False
+                if isinstance(op, ast.NotEq):
+                    return True
+                raise PyRaise(TypeError("ordering of int and %s" % type(other).__name__))
+            a, b = _it(l), _it(r)
+            f = {ast.Eq: lambda: a == b, ast.NotEq: lambda: a != b, ast.Lt: lambda: a < b, ast.LtE: lambda: a <= b,
+                 ast.Gt: lambda: a > b, ast.GtE: lambda: a >= b}[type(op)]()
+            return SBool(f)
         sym = isinstance(l, (SVal, SBool)) or isinstance(r, (SVal, SBool))
         if isinstance(op, (ast.Is, ast.IsNot)):
             if sym:
